@@ -69,6 +69,7 @@ const (
 	c10BucketVer = "bucketver" // BucketVersionNotMatch
 
 	c10Cancel  = "cancel" // the caller's context is cancelled while this attempt is in flight (non-retryable cause)
+	c10CtxErr  = "ctxerr" // transport error carrying the error of the caller's context if it has ended (else an ordinary transport error)
 	c10Success = "ok"
 )
 
@@ -119,6 +120,11 @@ type c10Case struct {
 	// resetting it to Unreach.
 	KeepLive bool       `json:"keep_live,omitempty"`
 	Before   []*c10Case `json:"before,omitempty"`
+	// the caller's context ends during this send
+	CtxEnd *c10CtxEnd `json:"ctx_end,omitempty"`
+	// LiveCtx: a liveness probe made with a context that has ended answers "unknown" (what the real probe may
+	// answer when the context wins the race against the status RPC); world-wide, taken from the first send.
+	LiveCtx bool `json:"live_ctx,omitempty"`
 }
 
 func (c *c10Case) scriptString() string {
@@ -150,6 +156,56 @@ func (c *c10Case) kindsString() string {
 		s += ",…"
 	}
 	return s
+}
+
+// ---------------------------------------------------------------- caller's context
+
+// c10CtxEnd scripts the end of the caller's context (the Backoffer's context) during a send.
+type c10CtxEnd struct {
+	How      string `json:"how"`      // "cancel": Err()==context.Canceled, "deadline": Err()==context.DeadlineExceeded
+	Where    string `json:"where"`    // "start": before the send is called; "inflight": while attempt N is in flight (the client then answers step N of the script: a response, a region error, a transport error or "ctxerr"); "backoff": at the end of the (virtual) sleep of the N-th back-off of this send
+	N        int    `json:"n"`        // attempt / back-off number (1-based)
+	Ancestor string `json:"ancestor"` // "": the Backoffer's context itself ends; "value"/"cancel": an ancestor ends and the Backoffer holds context.WithValue / context.WithCancel of it
+}
+
+func (e *c10CtxEnd) String() string {
+	if e == nil {
+		return ""
+	}
+	return fmt.Sprintf("%s@%s%d/%s", e.How, e.Where, e.N, e.Ancestor)
+}
+
+// c10Ctx is a context the harness can end at a scripted instant with a chosen error; Value doubles as the hook
+// that places the end inside Backoffer.Backoff (which looks up util.ExecDetailsKey right after its sleep).
+type c10Ctx struct {
+	mu   sync.Mutex
+	done chan struct{}
+	err  error
+	hook atomic.Pointer[func(key interface{})]
+}
+
+func (c *c10Ctx) Deadline() (time.Time, bool) { return time.Time{}, false }
+func (c *c10Ctx) Done() <-chan struct{}       { return c.done }
+func (c *c10Ctx) Err() error {
+	c.mu.Lock()
+	defer c.mu.Unlock()
+	return c.err
+}
+func (c *c10Ctx) Value(key interface{}) interface{} {
+	if h := c.hook.Load(); h != nil {
+		(*h)(key)
+	}
+	return nil
+}
+func (c *c10Ctx) end(err error) bool {
+	c.mu.Lock()
+	defer c.mu.Unlock()
+	if c.err != nil {
+		return false
+	}
+	c.err = err
+	close(c.done)
+	return true
 }
 
 // ---------------------------------------------------------------- topology
@@ -250,7 +306,14 @@ type c10Client struct {
 	topo     *c10Topo
 	cs       *c10Case
 	bo       *retry.Backoffer
-	cancel   context.CancelFunc
+	cancel   func() // ends the caller's context with context.Canceled
+	root     *c10Ctx
+	boCtx    context.Context
+	emu      sync.Mutex // guards the four fields below (set from the client or from the Backoff hook)
+	endedAt  int        // attempts issued (including the one in flight) when the context ended; -1 not ended
+	boAtEnd  int        // successful back-offs when the context ended
+	afterEnd int        // attempts issued after the context had ended
+	nAttA    int64      // atomic mirror of nAtt
 	killed   *uint32
 	w        *c10World
 	attempts []c10Attempt
@@ -311,7 +374,9 @@ func (c *c10Client) answer(ctx context.Context, addr string, req *tikvrpc.Reques
 		kctx = g.GetContext()
 	}
 	c.nAtt++
+	atomic.StoreInt64(&c.nAttA, int64(c.nAtt))
 	k := c.nAtt
+	endedBefore := c.root.Err() != nil
 	at := c10Attempt{N: k, Addr: addr, Fwd: req.ForwardedHost, Store: kctx.GetPeer().GetStoreId(), Peer: kctx.GetPeer().GetId(),
 		ReplicaRead: kctx.GetReplicaRead(), StaleRead: kctx.GetStaleRead(), Retry: kctx.GetIsRetryRequest(),
 		BoTimes: c.bo.GetTotalBackoffTimes(), BoSleep: c.bo.GetTotalSleep()}
@@ -384,8 +449,35 @@ func (c *c10Client) answer(ctx context.Context, addr string, req *tikvrpc.Reques
 		c.cancel()
 		return nil, errors.WithStack(context.Canceled)
 	}
+	if endedBefore {
+		// issued although the caller's context had ended: a real client fails such a request at once
+		c.emu.Lock()
+		c.afterEnd++
+		c.emu.Unlock()
+		at.Ans = "ctx-ended"
+		c.keep(at)
+		return nil, errors.WithStack(c.root.Err())
+	}
+	if e := c.cs.CtxEnd; e != nil && e.Where == "inflight" && k == e.N {
+		c.endCtx(e.How)
+	}
 	c.keep(at)
 	return c.produce(step, k, addr, req, kctx, prevPeer)
+}
+
+// endCtx ends the caller's context as scripted and waits until the Backoffer's context has seen it.
+func (c *c10Client) endCtx(how string) {
+	err := context.Canceled
+	if how == "deadline" {
+		err = context.DeadlineExceeded
+	}
+	c.emu.Lock()
+	if c.root.end(err) {
+		c.endedAt = int(atomic.LoadInt64(&c.nAttA))
+		c.boAtEnd = c.bo.GetTotalBackoffTimes()
+	}
+	c.emu.Unlock()
+	<-c.boCtx.Done()
 }
 
 func (c *c10Client) keep(at c10Attempt) {
@@ -426,8 +518,13 @@ func (c *c10Client) produce(step c10Step, k int, addr string, req *tikvrpc.Reque
 		return nil, errors.WithStack(context.DeadlineExceeded)
 	case c10Cancel:
 		c.cancelK = k
-		c.cancel()
+		c.endCtx("cancel")
 		return nil, errors.WithStack(context.Canceled)
+	case c10CtxErr:
+		if err := c.root.Err(); err != nil {
+			return nil, errors.WithStack(err)
+		}
+		return nil, errors.New("c10 injected transport error")
 	case c10NLHint:
 		c.hints++
 		var leader *metapb.Peer
@@ -716,7 +813,12 @@ type c10Outcome struct {
 	budgetGone  bool
 	ctxDone     bool
 	proxyBefore int // proxy index remembered by the cached region when the send started (-1 none)
+	endedAt     int // attempts issued when the caller's context ended (-1: it did not end)
+	boAtEnd     int // back-offs done when it ended
+	afterEnd    int // attempts issued after it had ended
 }
+
+type c10CtxKey struct{}
 
 // c10World is one RegionCache (with its cached region, store states and proxy
 // bookkeeping) that one or several sends run against.
@@ -735,7 +837,11 @@ func c10OpenWorld(t *c10Topo, c *c10Case) *c10World {
 	for _, id := range t.storeIDs {
 		w.live[id] = reachable
 	}
+	liveCtx := c.LiveCtx
 	w.cache.stores.setMockRequestLiveness(func(ctx context.Context, s *Store) livenessState {
+		if liveCtx && ctx.Err() != nil {
+			return unknown
+		}
 		w.mu.Lock()
 		defer w.mu.Unlock()
 		if l, ok := w.live[s.storeID]; ok {
@@ -822,10 +928,22 @@ func (w *c10World) send(c *c10Case) (out *c10Outcome) {
 	w.sends++
 	cache := w.cache
 
-	ctx, cancel := context.WithCancel(context.Background())
-	defer cancel()
+	root := &c10Ctx{done: make(chan struct{})}
+	defer root.end(context.Canceled)
+	var ctx context.Context = root
+	if e := c.CtxEnd; e != nil {
+		switch e.Ancestor {
+		case "value":
+			ctx = context.WithValue(root, c10CtxKey{}, 1)
+		case "cancel":
+			var ccancel context.CancelFunc
+			ctx, ccancel = context.WithCancel(root)
+			defer ccancel()
+		}
+	}
 	var killed uint32
-	cli := &c10Client{topo: t, w: w, cs: c, cancel: cancel, killed: &killed}
+	cli := &c10Client{topo: t, w: w, cs: c, killed: &killed, root: root, boCtx: ctx, endedAt: -1}
+	cli.cancel = func() { cli.endCtx("cancel") }
 	out.cli = cli
 	defer func() {
 		if cli.shutdown {
@@ -856,6 +974,23 @@ func (w *c10World) send(c *c10Case) (out *c10Outcome) {
 	vars := kv.NewVariables(&killed)
 	bo := retry.NewBackofferWithVars(ctx, c.MaxSleep, vars)
 	cli.bo = bo
+	if e := c.CtxEnd; e != nil {
+		switch e.Where {
+		case "start":
+			cli.endCtx(e.How)
+		case "backoff":
+			// Backoffer.Backoff looks util.ExecDetailsKey up in its context right after the sleep and the
+			// accounting of a back-off: the N-th such lookup is "the context ends during the N-th back-off".
+			// (only the goroutine that runs Backoff looks this key up in the Backoffer's own context while the
+			// context is alive, so reading the Backoffer's counters here is not a race.)
+			h := func(key interface{}) {
+				if key == util.ExecDetailsKey && root.Err() == nil && bo.GetTotalBackoffTimes() >= e.N {
+					cli.endCtx(e.How)
+				}
+			}
+			root.hook.Store(&h)
+		}
+	}
 	req := c10BuildReq(c)
 	out.isWrite = c10IsWrite(req)
 	timeout := time.Duration(c.TimeoutMs) * time.Millisecond
@@ -903,7 +1038,11 @@ func (w *c10World) send(c *c10Case) (out *c10Outcome) {
 	defer cli.mu.Unlock()
 	out.boTimes = bo.GetTotalBackoffTimes()
 	out.boSleep = bo.GetTotalSleep()
-	out.ctxDone = ctx.Err() != nil
+	root.hook.Store(nil)
+	out.ctxDone = root.Err() != nil
+	cli.emu.Lock()
+	out.endedAt, out.boAtEnd, out.afterEnd = cli.endedAt, cli.boAtEnd, cli.afterEnd
+	cli.emu.Unlock()
 	// "the budget is spent" is asked of the Backoffer itself: would one more
 	// back-off be refused?  (asked on a clone so that the probe leaves no trace;
 	// tikvServerBusy is refused whenever any other kind is, and also when the
